@@ -65,9 +65,11 @@ def S(parts):
 
 
 class Extractor:
-    def __init__(self, fn_node: ast.FunctionDef, shape_param="shape"):
+    def __init__(self, fn_node: ast.FunctionDef, shape_param="shape", helpers=None):
         self.fn = fn_node
         self.shape = shape_param
+        self.helpers = helpers or {}     # module-level functions of the writer's module: name -> FunctionDef (inlined)
+        self.inline_depth = 0
         self.env = {}
         self.out: list = []          # what reaches the file
         self.notes = []
@@ -406,6 +408,25 @@ class Extractor:
             return self.ev(n.args[0])
         if f == "zip" or f == "enumerate" or f == "range" or f == "list":
             return AV("other")
+        if isinstance(n.func, ast.Name) and f in self.helpers and self.inline_depth < 3 and not n.keywords:
+            # a private helper of the module: straight-line body (assignments, then one return) inlined
+            h = self.helpers[f]
+            params = [a.arg for a in h.args.args]
+            body = [b for b in h.body if not (isinstance(b, ast.Expr) and isinstance(b.value, ast.Constant))]
+            if len(params) == len(n.args) and body and isinstance(body[-1], ast.Return) and body[-1].value is not None \
+                    and all(isinstance(b, ast.Assign) and len(b.targets) == 1 and isinstance(b.targets[0], ast.Name) for b in body[:-1]):
+                argv = [self.ev(a) for a in n.args]
+                saved = self.env
+                self.env = dict(saved)
+                self.env.update(dict(zip(params, argv)))
+                self.inline_depth += 1
+                try:
+                    for b in body[:-1]:
+                        self.env[b.targets[0].id] = self.ev(b.value)
+                    return self.ev(body[-1].value)
+                finally:
+                    self.inline_depth -= 1
+                    self.env = saved
         return AV("other")
 
 
